@@ -5,7 +5,7 @@ from fractions import Fraction
 
 from . import text as WT
 
-COEF = ["", "", "2", "3", "4", "5", "7", "12", "0.5", "2.5", "0.25", "1.5", "-1", "-3", "-2", "-0.5", "1", "0", "10", "6", "8", "9", "15", "100", "17.2"]
+COEF = ["", "", "2", "3", "4", "5", "7", "12", "0.5", "2.5", "0.25", "1.5", "-1", "-3", "-2", "-0.5", "1", "1", "0", "0", "0", "10", "6", "8", "9", "15", "100", "17.2"]
 COEF_NZ = [c for c in COEF if c not in ("0",)]
 EXPS = ["", "", "", "^2", "^3", "^2", "^4", "^0", "^1", "^-1", "^-2", "^0.5", "^2.5", "^5"]
 VARS = "xyzabpq"
